@@ -62,6 +62,15 @@ impl TextSpace {
     }
 }
 
+thread_local! {
+    /// LCS builds an O(N*M) BTreeMap: skipped for texts longer than this many bytes
+    static LCS_BYTE_CAP: std::cell::Cell<usize> = std::cell::Cell::new(usize::MAX);
+}
+
+fn lcs_ok(old: &[u8], new: &[u8], alg: Algorithm) -> bool {
+    alg != Algorithm::Lcs || old.len().max(new.len()) <= LCS_BYTE_CAP.with(|c| c.get())
+}
+
 pub const TOKENIZERS: [&str; 6] = [
     "lines",
     "words",
@@ -215,6 +224,9 @@ pub fn c04_pair(old: &[u8], new: &[u8]) -> Result<(bool, u64, u64, u64), String>
             continue;
         }
         for &alg in ALGS.iter() {
+            if !lcs_ok(old, new, alg) {
+                continue;
+            }
             let r = subject(|| with_diff(t, alg, old, new, |d| c04_diff(d, old, new)))
                 .map_err(|p| format!("[u8] {} {}: panic: {}", TOKENIZERS[t], alg_name(alg), p))?
                 .map_err(|e| format!("[u8] {} {}: {}", TOKENIZERS[t], alg_name(alg), e))?;
@@ -405,6 +417,9 @@ pub fn c17_pair(old: &[u8], new: &[u8]) -> Result<(bool, u64, u64, u64), String>
         _ => None,
     };
     for &alg in ALGS.iter() {
+        if !lcs_ok(old, new, alg) {
+            continue;
+        }
         for t in 0..N_TOK {
             if !tokenizer_available(t) {
                 continue;
@@ -512,6 +527,69 @@ fn run_pairs(
             seen_valid_letters = Some(sp.letters.clone());
         }
     }
+    if rep.has_violation() {
+        return;
+    }
+    // enumerated rich corpus: single atoms, atom + LF, "a" + atom (thorough: + more contexts)
+    let atoms = super::richtext::atoms();
+    let mut texts: Vec<Vec<u8>> = vec![vec![]];
+    let ctx: Vec<(&[u8], &[u8])> = match cfg.tier {
+        Tier::Quick => vec![(b"", b""), (b"", b"\n"), (b"a", b"")],
+        Tier::Thorough => vec![(b"", b""), (b"", b"\n"), (b"a", b""), (b" ", b" "), (b"a", b"b"), (b"\r", b"")],
+    };
+    for a in &atoms {
+        for (pre, post) in &ctx {
+            let mut t = pre.to_vec();
+            t.extend_from_slice(a);
+            t.extend_from_slice(post);
+            texts.push(t);
+        }
+    }
+    texts.sort();
+    texts.dedup();
+    let ex = explore(cfg, texts.len(), |shard, acc| {
+        let old = &texts[shard];
+        for new in &texts {
+            match f(old, new) {
+                Ok((nt, tr, fp, diffs)) => {
+                    if acc.want_sample() {
+                        acc.sample(text_case(old, new));
+                    }
+                    acc.count("text_diffs", diffs);
+                    acc.ok(nt, tr, fp);
+                }
+                Err(e) => acc.violation(|| (text_case(old, new), e)),
+            }
+            if acc.stop() {
+                return;
+            }
+        }
+    });
+    rep.part("rich-corpus", json!({"atoms": atoms.len(), "texts": texts.len(), "note": "enumerated family: other scripts, ZWJ emoji, flags, every separator, invalid sequences of 1-8 bytes"}), ex);
+    if rep.has_violation() {
+        return;
+    }
+    // long texts (more than 100 tokens for most tokenizers) derived from the large sequence
+    // inputs; LCS is skipped above 400 bytes (its table is O(N*M))
+    let inputs = super::large::all(cfg.tier, cfg.seed);
+    let pairs = super::richtext::long_pairs(&inputs, cfg.tier.pick(130, 300));
+    let ex = explore(cfg, pairs.len(), |shard, acc| {
+        LCS_BYTE_CAP.with(|c| c.set(400));
+        let (name, old, new) = &pairs[shard];
+        let r = f(old.as_bytes(), new.as_bytes());
+        LCS_BYTE_CAP.with(|c| c.set(usize::MAX));
+        match r {
+            Ok((nt, tr, fp, diffs)) => {
+                if shard % 53 == 0 {
+                    acc.sample(json!({"long_text_pair": name, "old_bytes": old.len(), "new_bytes": new.len()}));
+                }
+                acc.count("text_diffs", diffs);
+                acc.ok(nt, tr, fp);
+            }
+            Err(e) => acc.violation(|| (text_case(old.as_bytes(), new.as_bytes()), format!("{}: {}", name, e))),
+        }
+    });
+    rep.part("long-texts", json!({"pairs": pairs.len(), "source": super::large::describe(cfg.tier), "note": "enumerated family"}), ex);
 }
 
 pub fn c04_run(cfg: &RunCfg) -> CheckReport {
